@@ -5,6 +5,11 @@ Require Import ZifyBool Lia.
 
 Local Open Scope Z_scope.
 
+Ltac case_if :=
+  match goal with
+  | |- context[if ?b then _ else _] => destruct b eqn:?
+  end.
+
 (* ------------------------------------------------------------------ events *)
 
 Definition okres' (e w h : Z) (r : tres term) : Prop := exists t', r = TOk t' /\ WFs0 e w h t'.
@@ -12,20 +17,20 @@ Definition okres' (e w h : Z) (r : tres term) : Prop := exists t', r = TOk t' /\
 Lemma post_event_ok e w h t : WFs0 e w h t -> e < 2 ->
   okres' (e + 1) w h (post_event t).
 Proof.
-  intros H He; unfold post_event. destruct H. destruct wf_ev0 as [Ee Hr].
+  intros H He; unfold post_event. destruct H as [? ? ? ? ? ? ? ? ? ? ? ? ? ? [Ee Hr]].
   destruct (t_ev t >=? 2) eqn:E; [lia|].
   eexists; split; [reflexivity|]. constructor; simpl; auto. split; lia.
 Qed.
 
 Lemma post_event_stall w h t : WFs0 2 w h t -> post_event t = TStall.
 Proof.
-  intros H; unfold post_event. destruct H. destruct wf_ev0 as [Ee Hr].
+  intros H; unfold post_event. destruct H as [? ? ? ? ? ? ? ? ? ? ? ? ? ? [Ee Hr]].
   destruct (t_ev t >=? 2) eqn:E; [reflexivity|lia].
 Qed.
 
 Lemma drain_ok e w h t : WFs0 e w h t -> WFs0 (if 0 <? e then e - 1 else e) w h (drain t).
 Proof.
-  intros H; unfold drain. destruct H. destruct wf_ev0 as [Ee Hr]. rewrite Ee.
+  intros H; unfold drain. destruct H as [? ? ? ? ? ? ? ? ? ? ? ? ? ? [Ee Hr]]. rewrite Ee.
   destruct (0 <? e) eqn:E; constructor; simpl; auto; split; lia.
 Qed.
 
@@ -37,6 +42,15 @@ Definition item_ok (it : titem) : Prop :=
   | _ => True
   end.
 
+Lemma zlist_eqb_eq a : forall b, zlist_eqb a b = true -> a = b.
+Proof.
+  unfold zlist_eqb; induction a as [|x a IH]; intros [|y b] H; simpl in H; try discriminate; auto.
+  apply andb_prop in H; destruct H as [H1 H2]. f_equal; [lia | now apply IH].
+Qed.
+
+Lemma key_is_eq k s : key_is k s = true -> k = s.
+Proof. apply zlist_eqb_eq. Qed.
+
 Lemma osc_event t p : raises_event (TOsc p) = true -> osc t p = post_event t.
 Proof.
   unfold raises_event, osc.
@@ -44,13 +58,9 @@ Proof.
   destruct found; cbn [negb andb]; [|discriminate].
   destruct (key_is sel [48] || key_is sel [50]) eqn:K1; [reflexivity|].
   destruct (key_is sel [56]) eqn:K8.
-  { assert (key_is sel [57] = false /\ key_is sel [55; 55; 55] = false) as [-> ->].
-    { unfold key_is in *. destruct sel as [|a [|b [|c r]]]; simpl in *; try (split; reflexivity);
-        destruct (a =? 56) eqn:A; simpl in K8; try discriminate;
-        assert (a = 56) by lia; subst; split; reflexivity. }
-    apply Bool.orb_false_iff in K1; destruct K1 as [-> ->]. simpl. discriminate. }
+  { apply key_is_eq in K8; subst sel. vm_compute. discriminate. }
   destruct (key_is sel [57]) eqn:K9; [reflexivity|].
-  apply Bool.orb_false_iff in K1; destruct K1 as [-> ->]. cbn [orb].
+  cbn [orb].
   destruct (key_is sel [55; 55; 55]) eqn:K7; [|discriminate].
   cbn [andb].
   destruct (cut59 val) as [[sel2 val2] found2].
@@ -65,7 +75,7 @@ Proof.
   destruct (cut59 p) as [[sel val] found].
   destruct found; cbn [negb andb]; [|intros _; now apply okres_ok].
   destruct (key_is sel [48] || key_is sel [50]) eqn:K1; [discriminate|].
-  apply Bool.orb_false_iff in K1; destruct K1 as [K0 K2]. rewrite K0, K2. cbn [orb].
+  cbn [orb].
   destruct (key_is sel [56]) eqn:K8.
   { intros _. destruct (cut59 val) as [[a b] f]. destruct f; cbn [negb]; apply okres_ok; auto.
     now apply WFs_set_pen. }
@@ -233,7 +243,7 @@ Proof.
   induction hs as [|s rest IH]; intros e Hd He; cbn [pending]; [eauto|].
   inversion Hd as [|? ? Hs Hrest]; subst.
   destruct s as [d it|w h]; [|now apply IH].
-  subst d. repeat case_if; try lia; apply IH; auto; lia.
+  subst d. destruct (0 <? e) eqn:E0; repeat case_if; try (exfalso; lia); apply IH; auto; lia.
 Qed.
 
 Theorem events_never_stall_drained hs : always_drained hs -> stall_free hs = true.
@@ -243,18 +253,6 @@ Proof.
 Qed.
 
 (* ------------------------------------------------------------------ draw *)
-
-Lemma draw_row_inside fuel : forall (line : trow) row col c r x,
-  In (c, r, x) (draw_row fuel line row col) -> 0 <= col -> (col <= c < zlen line) /\ r = row.
-Proof.
-  induction fuel as [|k IH]; intros line row col c r x Hin Hc; cbn [draw_row] in Hin; [destruct Hin|].
-  destruct (zget line col) as [cell|] eqn:G; [|destruct Hin].
-  pose proof (zget_some_range _ _ _ G) as Hr.
-  destruct Hin as [Heq|Hin].
-  - inversion Heq; subst; split; [lia|reflexivity].
-  - destruct (IH _ _ _ _ _ _ Hin) as [H1 H2]; [case_if; lia|].
-    split; [|assumption]. case_if; lia.
-Qed.
 
 Lemma draw_row_inside_ok w fuel (line : trow) row col c r x :
   row_ok w line -> 0 <= col -> In (c, r, x) (draw_row fuel line row col) -> 0 <= c < w /\ r = row.
@@ -267,8 +265,8 @@ Proof.
     assert (Hcell : cell_ok cell) by (rewrite Forall_forall in HF; apply HF; eapply zget_In; eauto).
     destruct Hin as [Heq|Hin].
     - inversion Heq; subst; split; [lia|reflexivity].
-    - unfold cell_ok in Hcell. destruct (IH _ ltac:(case_if; lia) Hin) as [H1 H2].
-      split; [|assumption]. revert H1; case_if; lia. }
+    - unfold cell_ok in Hcell. apply IH in Hin; [|case_if; lia].
+      destruct Hin as [H1 H2]. split; [|assumption]. revert H1; case_if; lia. }
   destruct (Hgen fuel col Hc Hin); split; [lia|assumption].
 Qed.
 
@@ -279,8 +277,8 @@ Proof.
   induction g as [|line rest IH]; intros row c r x HF Hr Hin; cbn [draw_rows] in Hin; [destruct Hin|].
   inversion HF as [|? ? Hl Hrest]; subst. rewrite zlen_cons. pose proof (zlen_nonneg rest).
   apply in_app_or in Hin; destruct Hin as [Hin|Hin].
-  - destruct (draw_row_inside_ok w _ _ _ _ _ _ _ Hl ltac:(lia) Hin); subst; lia.
-  - destruct (IH _ _ _ _ Hrest ltac:(lia) Hin); lia.
+  - eapply draw_row_inside_ok in Hin; [|exact Hl|lia]. destruct Hin; subst; lia.
+  - apply IH in Hin; [|assumption|lia]. destruct Hin; lia.
 Qed.
 
 (* every SetCell of Draw addresses a cell of the window (whose size is the terminal's),
@@ -292,4 +290,28 @@ Proof.
   intros H; split; [|destruct H; auto].
   intros c r x Hin. destruct (WFs_active _ _ _ _ H) as [Hl HF].
   destruct (draw_rows_inside w (active t) 0 c r x HF ltac:(lia) Hin); lia.
+Qed.
+
+(* ------------------------------------------------------------------ the invariant, spelled out *)
+
+(* what C05 demands of the state after every step *)
+Definition well_formed (t : term) : Prop :=
+  exists cols rows,
+    1 <= cols /\ 1 <= rows /\
+    zlen (t_prim t) = rows /\ zlen (t_alt t) = rows /\
+    (forall line, In line (t_prim t) \/ In line (t_alt t) -> zlen line = cols) /\
+    height t = rows /\ width t = cols /\
+    0 <= t_row t < rows /\ 0 <= t_col t < cols /\
+    0 <= t_top t /\ t_top t <= t_bot t /\ t_bot t < rows /\
+    t_left t = 0 /\ t_right t = cols - 1 /\
+    0 <= t_ev t <= 2.
+
+Lemma WF_well_formed t : WF t -> well_formed t.
+Proof.
+  intros (e & w & h & H). exists w, h.
+  pose proof (WFs_height _ _ _ _ H). pose proof (WFs_width _ _ _ _ H).
+  destruct H as [? ? [Hp HFp] [Ha HFa] ? ? ? ? ? ? ? ? ? ? [Ee Hr]].
+  repeat split; auto; try lia.
+  intros line [Hin|Hin]; [rewrite Forall_forall in HFp; apply HFp in Hin | rewrite Forall_forall in HFa; apply HFa in Hin];
+    apply Hin.
 Qed.
